@@ -272,6 +272,8 @@ func init() {
 	}
 	gridInts = append(gridInts, math.MinInt64)
 	fb := []float64{0, 5e-324, 2.2250738585072014e-308, 1e-200, 0.1, 0.5, 1, 1.5, 2, 2.5, 3, 1 << 31, 1 << 53, 1<<53 + 2,
+		// where float-to-integer rounding is delicate: the neighbours of 0.5, x.5 ties, odd integers in [2^52, 2^53)
+		0.49999999999999994, 0.5000000000000001, 3.5, 4503599627370495.5, 4503599627370497, 9007199254740991, 4611686018427387904,
 		9223372036854774784.0, 9223372036854775808.0, 9223372036854777856.0, 1e100, 1e200, 1e308, math.MaxFloat64}
 	for _, f := range fb {
 		gridFloats = append(gridFloats, f, -f)
